@@ -3,20 +3,23 @@ import PoxModel.Model.Revent
 open Pox Pox.Proto Pox.Revent
 
 /-! Driver for C05.  Request:
-  {"declared":[et..], "acceptAll":bool, "fuel":n, "ops":[action..],
-   "scripts":[[hid, [{"acts":[[action, guarded]..], "ret":ret}, ..]], ..]}
-  action: {"op":"add","et","hid","prio","once","weak":null|o} | {"op":"bind","ets","base","prio","weak"}
+  {"sources":[{"declared":[et..], "acceptAll":bool, "lazy":bool}, ..], "fuel":n, "ops":[action..],
+   "scripts":[[hid, [{"halt":null|bool, "acts":[[action, guarded]..], "ret":ret}, ..]], ..]}
+  action: every action carries "s" = index of the source it is performed on, and
+          {"op":"add","et","hid","prio","once","weak":null|o} | {"op":"bind","ets","base","prio","weak"}
         | {"op":"rmh","hid","et":null|t} | {"op":"rme","eid","et"} | {"op":"rmp","et","eid","et2"}
         | {"op":"clear"} | {"op":"drop","o"} | {"op":"count"} | {"op":"raise","et","form":"inst"|"cls","noerr"}
-  ret: {"k":"none"|"false"|"true"|"tup0"|"other"} | {"k":"tup1","h"} | {"k":"tup2","h","r"} | {"k":"exc","e":"revent"|"key"|"other"}
+  ret: {"k":"none"|"false"|"true"|"tup0"|"other"} | {"k":"tup1","h"} | {"k":"tup2","h","r"} | {"k":"exc","e":"revent"|"key"|"attr"|"other"}
 The k-th invocation (k = 0,1,..) of handler `hid` runs the k-th script of its list; beyond the list (or with no list)
 the handler does nothing and returns None.
-Answer: {"finished", "log":[call/ret/res events], "frames":[[fid, et, [eid..]]..], "final":[[et, [[prio,hid,once,eid,weak]..]]..], "count"} -/
+Answer: {"finished", "log":[call/ret/res events], "frames":[[fid, src, et, [eid..]]..],
+         "final":[ per source [[et, [[prio,hid,once,eid,weak]..]]..] ], "count":[per source], "inited":[per source]} -/
 
 def optNatOf (j : J) (k : String) : Except String (Option Nat) := j.optNat k
 
 def parseExc (s : String) : Except String Exc :=
-  if s = "revent" then .ok .revent else if s = "key" then .ok .key else if s = "other" then .ok .other
+  if s = "revent" then .ok .revent else if s = "key" then .ok .key else if s = "attr" then .ok .attr
+  else if s = "other" then .ok .other
   else .error s!"bad exception kind {s}"
 
 def parseRet (j : J) : Except String Ret := do
@@ -49,34 +52,44 @@ def parseAction (j : J) : Except String Action := do
     pure (.raise (← j.nat "et") form (← j.boolean "noerr"))
   else .error s!"bad op {op}"
 
-def parseScript (j : J) : Except String Script := do
+def parseSAct (n : Nat) (j : J) : Except String SAct := do
+  let i ← j.nat "s"
+  if i < n then pure ⟨i, (← parseAction j)⟩ else .error s!"source index {i} out of range"
+
+def optBoolOf (j : J) (k : String) : Except String (Option Bool) :=
+  match j.get? k with
+  | none => .error s!"missing key {k}"
+  | some .null => .ok none
+  | some v => do pure (some (← v.asBool))
+
+def parseScript (n : Nat) (j : J) : Except String Script := do
   let acts ← (← j.array "acts").mapM fun a => do
     match a with
-    | .arr [x, .bool g] => pure ((← parseAction x), g)
+    | .arr [x, .bool g] => pure ((← parseSAct n x), g)
     | _ => .error "act = [action, guarded]"
-  pure { acts, ret := (← parseRet (← j.get "ret")) }
+  pure { halt := (← optBoolOf j "halt"), acts, ret := (← parseRet (← j.get "ret")) }
 
-def parseScripts (j : J) : Except String (List (Nat × List Script)) := do
+def parseScripts (n : Nat) (j : J) : Except String (List (Nat × List Script)) := do
   (← j.asArr).mapM fun p => do
     match p with
-    | .arr [h, l] => pure ((← h.asNat), (← (← l.asArr).mapM parseScript))
+    | .arr [h, l] => pure ((← h.asNat), (← (← l.asArr).mapM (parseScript n)))
     | _ => .error "scripts entry = [hid, [script..]]"
 
 def nCalls (hid : Nat) : List Ev → Nat
   | [] => 0
-  | .call _ e :: l => (if e.hid = hid then 1 else 0) + nCalls hid l
+  | .call _ _ e :: l => (if e.hid = hid then 1 else 0) + nCalls hid l
   | _ :: l => nCalls hid l
 
 def mkBeh (tbl : List (Nat × List Script)) : Beh := fun hid log =>
   match tbl.find? (·.1 = hid) with
-  | none => ⟨[], .none⟩
+  | none => ⟨none, [], .none⟩
   | some (_, l) =>
     match l[nCalls hid log]? with
     | some s => s
-    | none => ⟨[], .none⟩
+    | none => ⟨none, [], .none⟩
 
 def excName : Exc → String
-  | .revent => "revent" | .key => "key" | .other => "other"
+  | .revent => "revent" | .key => "key" | .attr => "attr" | .other => "other"
 
 def retJ : Ret → J
   | .none => .str "none" | .fals => .str "false" | .tru => .str "true" | .tup0 => .str "tup0" | .other => .str "other"
@@ -95,29 +108,39 @@ def resJ : Res → J
   | .ok (.pairs l) => .arr [.str "pairs", .arr (l.map fun p => .arr [.num p.1, .num p.2])]
 
 def evJ : Ev → Option J
-  | .call f e => some (.arr [.str "call", .num f, .num e.eid, .num e.hid])
-  | .ret f e r => some (.arr [.str "ret", .num f, .num e.eid, .num e.hid, retJ r])
+  | .call f i e => some (.arr [.str "call", .num f, .num i, .num e.eid, .num e.hid])
+  | .ret f e r h => some (.arr [.str "ret", .num f, .num e.eid, .num e.hid, retJ r, .bool h])
   | .res r => some (.arr [.str "res", resJ r])
   | _ => none
 
 def frameJ : Ev → Option J
-  | .begin f et snap => some (.arr [.num f, .num et, .arr (snap.map fun e => .num e.eid)])
+  | .begin f i et snap => some (.arr [.num f, .num i, .num et, .arr (snap.map fun e => .num e.eid)])
   | _ => none
 
 def entryJ (e : Entry) : J :=
   .arr [.num e.prio, .num e.hid, .bool e.once, .num e.eid, J.ofOptNat e.weak]
 
+def parseSource (j : J) : Except String Src := do
+  pure (Src.init (← j.nats "declared") (← j.boolean "acceptAll") (← j.boolean "lazy"))
+
 def handle (j : J) : Except String J := do
-  let declared ← j.nats "declared"
-  let acceptAll ← j.boolean "acceptAll"
+  let sources ← (← j.array "sources").mapM parseSource
+  let n := sources.length
+  if n = 0 then .error "no source" else
   let fuel ← j.nat "fuel"
-  let ops ← (← j.array "ops").mapM parseAction
-  let tbl ← parseScripts (← j.get "scripts")
-  let m := run (mkBeh tbl) fuel (M.init (Src.init declared acceptAll) ops)
+  let ops ← (← j.array "ops").mapM (parseSAct n)
+  let tbl ← parseScripts n (← j.get "scripts")
+  let srcs : Nat → Src := fun i => match sources[i]? with
+    | some s => s
+    | none => Src.init [] false          -- never addressed: every source index in the request is < n
+  let m := run (mkBeh tbl) fuel (M.init srcs ops)
+  let idx := List.range n
   pure (J.mk [("finished", .bool m.finished),
               ("log", .arr (m.log.filterMap evJ)),
               ("frames", .arr (m.log.filterMap frameJ)),
-              ("final", .arr (m.src.keys.map fun (k : Nat) => .arr [.num k, .arr ((m.src.subscribers k).map entryJ)])),
-              ("count", .num m.src.count)])
+              ("final", .arr (idx.map fun i =>
+                  .arr ((m.srcs i).keys.map fun (k : Nat) => .arr [.num k, .arr (((m.srcs i).subscribers k).map entryJ)]))),
+              ("count", .arr (idx.map fun i => .num (m.srcs i).count)),
+              ("inited", .arr (idx.map fun i => .bool (m.srcs i).inited))])
 
 def main : IO Unit := serve handle
